@@ -88,11 +88,17 @@ def _judge(out, contests, returned, done, feats, before=None, tag=""):
 def _reset(out, contests):
     from shangrla.core.Audit import Assertion
 
+    from shangrla.core.Audit import Audit
+
     try:
         Assertion.reset_p_values(contests)
+        with contextlib.redirect_stdout(io.StringIO()):
+            done = Audit.summarize_status(None, contests)
     except Exception as e:  # noqa
         out.lib_exception("reset_p_values", e)
         return
+    # after a reset every p-value is 1, above every admissible risk limit: nothing can be reported complete
+    out.expect(done is False or done == False, "audit-complete-right-after-reset", lambda: done)  # noqa: E712
     for cid, con in contests.items():
         for k, a in con.assertions.items():
             out.expect(a.p_value == 1 and len(a.p_history) == 0 and a.proved is False, "reset-assertion", lambda: (cid, k, a.p_value, a.proved))
